@@ -65,6 +65,8 @@ func init() {
 			add(ShutdownParams{Case: "reopen", Checkpoint: "auto", Membership: "dynamic"}, 4)
 			add(ShutdownParams{Case: "rebalance", Checkpoint: "auto", Membership: "static"}, 4)
 			add(ShutdownParams{Case: "rebalance", Checkpoint: "auto", Mitigation: true, Membership: "dynamic"}, 4)
+			add(ShutdownParams{Case: "pingfail", Checkpoint: "auto", Health: true, Membership: "static", MaxPoint: 40}, 4)
+			add(ShutdownParams{Case: "rebalance2", Checkpoint: "auto", Membership: "static", MaxPoint: 3}, 1)
 			add(ShutdownParams{Case: "idle", Checkpoint: "auto", Membership: "couchbase", MaxPoint: 1}, 1)
 			add(ShutdownParams{Case: "deliver", Checkpoint: "auto", Membership: "couchbase", MaxPoint: 60}, 4)
 			return out
@@ -75,31 +77,81 @@ func init() {
 // shutdownClassify names the lifecycle state in which Close() arrived, so that a failure is identified by
 // where it happens and not only by its symptom.
 func shutdownClassify(r *vrt.Result) []string {
-	open, seenClose, overlap := 0, false, false
+	// where in the lifecycle was Close() called? (BRS/ARS/BRE/ARE = Before/After Rebalance Start/End)
+	var brs, ars, bre, are int
+	var lastARS, closeT, delay int64
+	seenClose, lateBRS := false, false
+	delay = -1
 	for _, l := range r.Log {
+		var t int64
 		switch {
-		case l == "Close() called" && !seenClose:
+		case strings.HasPrefix(l, "REBALANCE-DELAY "):
+			fmt.Sscanf(l, "REBALANCE-DELAY %d", &delay)
+		case strings.HasPrefix(l, "Close() time t="):
+			if !seenClose {
+				fmt.Sscanf(l, "Close() time t=%d", &closeT)
+			}
+		case l == "Close() called":
 			seenClose = true
-			if open > 0 {
-				overlap = true
-			}
 		case strings.HasPrefix(l, "handler BRS"):
-			open++
 			if seenClose {
-				overlap = true
+				lateBRS = true
+			} else {
+				brs++
 			}
-		case strings.HasPrefix(l, "handler ARE"):
-			open--
+		case strings.HasPrefix(l, "handler ARS") && !seenClose:
+			ars++
+			fmt.Sscanf(l, "handler ARS t=%d", &t)
+			lastARS = t
+		case strings.HasPrefix(l, "handler BRE") && !seenClose:
+			bre++
+		case strings.HasPrefix(l, "handler ARE") && !seenClose:
+			are++
 		}
 	}
+	// "concurrent with the rebalance path" = some step of the rebalance (the Rebalance() call or the re-open) is
+	// running or due while Close() runs; "strictly inside the delay window" = Rebalance() has returned (virtual
+	// time has moved on since AfterRebalanceStart) and the re-open timer is not yet due: nothing of the
+	// rebalance path is running then.
+	const conc = "concurrent with the rebalance path: "
 	state := "outside any rebalance"
-	if overlap {
-		state = "overlapping a rebalance (between the start of Rebalance() and the end of the re-open)"
+	switch {
+	case brs > are && ars < brs:
+		state = conc + "during the close phase of Rebalance() (BeforeRebalanceStart seen, AfterRebalanceStart not yet)"
+	case brs > are && bre < brs && closeT-lastARS <= 1000:
+		state = conc + "at the very end of Rebalance() (AfterRebalanceStart seen at this very instant, the call may not have returned)"
+	case brs > are && bre < brs && delay >= 0 && closeT < lastARS+delay-1000:
+		state = "strictly inside the rebalance delay window (Rebalance() has returned, the re-open timer is not due yet)"
+	case brs > are:
+		state = conc + "the re-open is due or running (AfterRebalanceEnd not yet)"
+	case lateBRS:
+		state = conc + "a Rebalance() started while Close() was running"
 	}
 	var msgs []string
 	switch r.Status {
 	case vrt.StatusOK:
 	case vrt.StatusCrash:
+		// fail-stop of the health checker after five failed pings one retry interval apart is what C19 demands,
+		// whenever Close() arrives
+		if strings.Contains(r.Crash.Stack, "couchbase/healthcheck.go") {
+			var ts []int64
+			for _, l := range r.Log {
+				var n int
+				var t int64
+				if _, err := fmt.Sscanf(l, "PINGFAIL %d t=%d", &n, &t); err == nil {
+					ts = append(ts, t)
+				}
+			}
+			spaced := len(ts) >= 5
+			for i := len(ts) - 4; spaced && i < len(ts); i++ {
+				if i <= 0 || ts[i]-ts[i-1] < int64(time.Second) {
+					spaced = false
+				}
+			}
+			if spaced {
+				return nil
+			}
+		}
 		site := "?"
 		for _, ln := range strings.Split(r.Crash.Stack, "\n") {
 			if strings.Contains(ln, "go-dcp/stream.") || strings.Contains(ln, "go-dcp/couchbase.") || strings.Contains(ln, "go-dcp.(") {
@@ -162,6 +214,11 @@ func shutdownMain(p ShutdownParams) {
 			e.bus().Publish(helpers.MembershipChangedBusEventName, &membership.Model{MemberNumber: 1, TotalMembers: 1})
 		})
 	}
+	if p.Membership == "dynamic" {
+		vrt.Logf("REBALANCE-DELAY 0")
+	} else {
+		vrt.Logf("REBALANCE-DELAY %d", int64(o.RebalanceDelay))
+	}
 	e.Start()
 	vrt.Quiesce()
 	c.WaitIdle()
@@ -195,6 +252,7 @@ func shutdownMain(p ShutdownParams) {
 			}
 			e.LateSaveAfterInflight = done
 		}
+		vrt.Logf("Close() time t=%d", vrt.NowNanos())
 		vrt.Logf("Close() called")
 		e.D.Close()
 	}
@@ -275,6 +333,29 @@ func shutdownMain(p ShutdownParams) {
 			dcpStream(e).Rebalance()
 		})
 		vrt.Sleep(o.RebalanceDelay / 2)
+	case "pingfail":
+		// the cluster stops answering pings; Close() arrives at every point of the health checker (between
+		// attempts, inside the retry wait, inside a ping). A crash is legitimate only after five failed pings
+		// that were one retry interval apart (shutdownClassify).
+		npf := 0
+		c.Fault = func(r *gocbcore.SimRequest) gocbcore.SimAnswer {
+			if r.Kind == "ping" {
+				npf++
+				vrt.Logf("PINGFAIL %d t=%d", npf, vrt.NowNanos())
+				return gocbcore.SimAnswer{Kind: "err", Err: gocbcore.ErrTemporaryFailure}
+			}
+			return gocbcore.SimAnswer{}
+		}
+		vrt.InjectAt("healthCheck).Start", k, doClose)
+		vrt.Sleep(7*time.Second + 6*time.Second)
+	case "rebalance2":
+		// two notifications inside one delay window (the second one re-arms the timer), then Close() inside
+		// the re-armed window: nothing may be re-opened after Close() has returned
+		dcpStream(e).Rebalance()
+		vrt.Sleep(o.RebalanceDelay / 2)
+		dcpStream(e).Rebalance()
+		vrt.Sleep([]time.Duration{time.Second, o.RebalanceDelay / 2, o.RebalanceDelay - time.Second}[k%3])
+		doClose()
 	case "reopen":
 		vrt.GoNamed("rebalancer", func() {
 			e.bus().Publish(helpers.MembershipChangedBusEventName, &membership.Model{MemberNumber: 1, TotalMembers: 2})
